@@ -65,9 +65,10 @@ func (w *world) client(addr, sess string, srv *refserver.Server) (*mtproto.MTPro
 	if err != nil {
 		return nil, err
 	}
-	m.Warnings = make(chan error, 64)
+	ch := make(chan error, 64)
+	m.Warnings = ch
 	go func() {
-		for e := range m.Warnings {
+		for e := range ch {
 			w.mu.Lock()
 			w.warns = append(w.warns, e.Error())
 			w.mu.Unlock()
